@@ -44,10 +44,10 @@ var patterns = []string{
 }
 
 // subPatterns is the sub-alphabet of the 3-entry pass of the thorough tier.
-var subPatterns = []string{"/", "/ab", "/abc", "/a/:p?", "/:p", "/abc/:p", "/*", "/ABC", "/x"}
+var subPatterns = []string{"/", "/ab", "/abc", "/a/:p?", "/:p", "/abc/:p", "/*", "/x"}
 
 // subReqPaths are the request paths of the 3-entry pass (those the sub-alphabet can tell apart).
-var subReqPaths = []string{"/", "/a", "/a/", "/ab", "/abc", "/abc/", "/ABC", "/abc/d", "/x", "/%61bc", "/a/x"}
+var subReqPaths = []string{"/", "/a", "/a/", "/ab", "/abc", "/abc/", "/ABC", "/abc/d", "/x", "/a/x"}
 
 var reqPaths = []string{
 	"/", "/a", "/a/", "/ab", "/ab/", "/abc", "/abc/", "/ABC", "/abcd", "/abc/d", "/abc/d/", "/x",
